@@ -32,7 +32,7 @@ class PlotWorld(object):
         from astropy import units as u
         self.dir = tempfile.mkdtemp(dir=root)
         rng = random.Random(seed)
-        self.names = ['pm%02d' % i for i in range(NM)]
+        self.names = ['pm_%s%02d' % ('qdzakx'[(i * 5 + seed) % 6], i) for i in range(NM)]      # deliberately NOT in sorted order
         pw.build_cube(self.dir, self.names, WAV, APS_AU if multi else None, val, lambda m, a, w: 0.1 * val(m, a, w),
                       order=rng.choice(['asc', 'desc']), aperture_dependent=multi, logd_step=0.2)
         from sedfitter.extinction import Extinction
